@@ -73,11 +73,17 @@ func (v *ApiValidator) validateControllers() ([]diagnostics.EntityDiagnostic, []
 func (v *ApiValidator) getRouteEntries(controller *metadata.ControllerMeta) []paths.RouteEntry {
 	entries := make([]paths.RouteEntry, 0, len(controller.Receivers))
 
+	// Routers mount every receiver under its controller's route. Conflicts must be looked for on that full path
+	controllerRoute := ""
+	if controller.Struct.Annotations != nil {
+		controllerRoute = controller.Struct.Annotations.GetFirstValueOrEmpty(annotations.GleeceAnnotationRoute)
+	}
+
 	for _, route := range controller.Receivers {
 		entries = append(
 			entries,
 			paths.RouteEntry{
-				Path:   route.Annotations.GetFirstValueOrEmpty(annotations.GleeceAnnotationRoute),
+				Path:   controllerRoute + route.Annotations.GetFirstValueOrEmpty(annotations.GleeceAnnotationRoute),
 				Method: route.Annotations.GetFirstValueOrEmpty(annotations.GleeceAnnotationMethod),
 				Meta: paths.RouteEntryMeta{
 					Controller: controller,
